@@ -56,7 +56,7 @@ _STARTS_SUP = [0x10000, 0x1F600, 0x2F800, 0xE0100, 0xFFFFE, 0x10FF00, 0x10FFF0]
 
 
 @st.composite
-def _segments(draw, maxcp, maxgid, *, maxsegs=7, dense=False, longruns=False, sup=False):
+def _segments(draw, maxcp, maxgid, *, maxsegs=7, dense=False, longruns=False, sup=False, modes=None):
     starts = [s for s in _STARTS_BMP if s <= maxcp]
     if sup:
         starts = starts + _STARTS_SUP
@@ -76,9 +76,26 @@ def _segments(draw, maxcp, maxgid, *, maxsegs=7, dense=False, longruns=False, su
         if longruns:
             lens += [st.sampled_from([255, 256, 257, 1000]), st.integers(100, 5000)]
         n = min(room, draw(st.one_of(*lens)))
-        mode = draw(st.sampled_from(["seq", "seq", "seq", "same", "list", "list", "rev", "stride"]))
+        mode = draw(st.sampled_from(modes or ["seq", "seq", "seq", "same", "list", "list", "rev", "stride", "brk"]))
         if maxgid < 2:
             mode = "same"
+        if mode == "brk" and (maxgid < 6 or room < 30):
+            mode = "seq"
+        if mode == "brk":
+            # one run of consecutive code points: stretches of consecutive glyph ids (each long enough to be worth a format 4
+            # segment of its own) separated by one to three code points that break the sequence - the Latin-1 shape with
+            # U+00A0 / U+00AD mapped to the re-used space / hyphen glyph
+            total = 0
+            for k in range(draw(st.integers(2, 3))):
+                if k:
+                    hole = draw(st.sampled_from([1, 1, 1, 2, 3]))
+                    segs.append(["list", cp + total, draw(st.lists(st.integers(1, min(maxgid, 3)), min_size=hole, max_size=hole))])
+                    total += hole
+                ln = min(draw(st.integers(5, 14)), maxgid - 3)
+                segs.append(["seq", cp + total, ln, draw(st.integers(4, maxgid - ln + 1))])
+                total += ln
+            cp += total
+            continue
         if mode == "seq":
             n = min(n, maxgid)
             g0 = draw(st.one_of(st.integers(1, maxgid - n + 1), st.just(maxgid - n + 1), st.just(1)))
